@@ -1052,6 +1052,18 @@ func (e *Engine) opRead(c *cursor) *Violation {
 		if op.Variant != "Alive" {
 			why = "dead-entity"
 		}
+		// the unchecked accessors: documented to panic for a removed entity, "but not for a recycled" one - so only
+		// handles whose ID is not in use again are offered to them
+		if _, inUse := e.M.ByID[h.ID()]; !inUse && c.n(3) == 0 {
+			switch op.Variant {
+			case "Has":
+				op.Variant = "HasUnchecked"
+			case "Get":
+				op.Variant = "GetUnchecked"
+			}
+		} else {
+			c.n(1)
+		}
 	} else {
 		op.Ent = me.H
 	}
